@@ -377,6 +377,7 @@ def run(ck):
     final_write(ck)
     from contracts import C14, cli_model
 
+    cli_model.show_plot_obligations(ck, list(variants()))  # the consumer of a results file, for the file of every variant
     cli_model.obligations(ck, "C16")  # the same callback with a results table that has rows / has none (an empty astropy Table is falsy)
 
     ck.bounded_run("results of a run without a surviving trajectory", lambda: C14.native_empty_runs(ck),
